@@ -14,7 +14,9 @@ VERIF = os.path.dirname(HERE)
 
 # Dropped after measurement (harness files keep them for reference, they are not registered):
 #   K02 disambiguate_short (32 GB), K04 State::construct (15 GB / >20 min), K08 roff escape (30 min cap even with concrete
-#   inputs), K12 ParseCommand::eval (CBMC out of memory: Info::default / run_subparser pull in Doc and rendering code).
+#   inputs). K04 was retried with 8 / 2 concrete-ish command lines and K12's retry-path scenario with unwind 24 (State swap is a
+#   16-iteration byte loop): CBMC aborted at the 14 GB limit in all three. K12 itself became feasible once the harness stopped
+#   calling Info::default() (Doc::from(&str) string processing) and builds an Info without any text.
 # harness name -> unit description
 UNITS = [
     # K01: helpers used by the Verus tier through assumed contracts
@@ -47,6 +49,10 @@ UNITS = [
          bound="2 items from {-a, -b, word} with every ledger; std::env::var_os nondeterministic; flag with and without an absent value"),
     dict(unit="K10.argument_line_beats_env", harness="k10_argument_line_beats_env", tags=["C18", "C02", "C06"], quick=True, complete=False, stubbing=True,
          bound="2 items from {-a, -b, word} with every ledger; std::env::var_os nondeterministic"),
+    dict(unit="K12.command_scope_is_name_to_end", harness="k12_command_scope_is_name_to_end", tags=["C08", "C05"], quick=True, complete=False,
+         bound="command name followed by 2 items, every ledger of those 2; inner parser = a probe that records its scope and claims everything"),
+    dict(unit="K12.adjacent_command_scope", harness="k12_adjacent_command_scope", tags=["C19", "C08", "C05"], quick=False, complete=False,
+         bound="adjacent command name followed by 2 items, every ledger of those 2; success on the first attempt only"),
     dict(unit="K14.first_line_two_tokens", harness="k14_first_line_two_tokens", tags=["C12", "C04"], quick=False, complete=False,
          bound="two Text tokens over 2+2 ASCII bytes"),
     dict(unit="K14.first_line_three_tokens", harness="k14_first_line_three_tokens", tags=["C12", "C04"], quick=False, complete=False,
